@@ -628,7 +628,7 @@ impl Property for C14 {
     }
 
     fn cases(tier: Tier) -> u64 {
-        tier.pick(100_000, 6_000_000)
+        tier.pick(300_000, 6_000_000)
     }
 
     fn exhaustive_spaces(_tier: Tier) -> Vec<String> {
